@@ -8,7 +8,7 @@ mod verif_c07_ais {
     use crate::verif_spec as vs;
     use crate::verif_spec::h::*;
 
-    //@ob id=C07.ia5 props=C07 tier=quick kind=harness fns=adsb/ais.rs:ia5
+    //@ob id=C07.ia5 props=C07,C01 tier=quick kind=harness fns=adsb/ais.rs:ia5
     //@region every u32 character code: 1-26 -> 'A'-'Z', 48-57 -> '0'-'9', everything else blank (omitted)
     #[kani::proof]
     fn c07_ia5() {
